@@ -218,9 +218,10 @@ def cox_task(T, n, efron, shard=(0, 1)):
                         cs.append((f'raw_hessian[{i}]>=d2V/dz_{i}^2', [], L(rh[i]) >= d(dV[i], z[i])))
                         # link to get_global_lipschitz (contracts/c09g.py): every diagonal bound is below sum(s)/n
                         cs.append((f'raw_hessian[{i}]<=sum(s)/n', [], L(rh[i]) <= z3.RealVal(int(sum(yarr[:, 1]))) / n))
-                if n == 2 and T.tier != 'quick':
-                    # diag(raw_hessian) - Hessian is positive semi-definite (2x2: diagonal >= 0 above, determinant >= 0);
-                    # thorough tier only: the slowest instance takes 11 s, too close to the 20 s quick budget
+                if n == 2 and T.tier == 'extended':
+                    # diag(raw_hessian) - Hessian is positive semi-definite (2x2: diagonal >= 0 above, determinant >= 0).
+                    # NOT claimed, in no MANIFEST tier (`--tier extended` only): solver-unstable (same query 5 s in one run, unknown
+                    # after 120 s in another); the diagonal clauses above are the ones that carry C09
                     a, c = L(rh[0]) - d(dV[0], z[0]), L(rh[1]) - d(dV[1], z[1])
                     b = d(dV[0], z[1])
                     cs.append(('diag(raw_hessian)-Hessian:det>=0', [], a * c - b * b >= 0))
